@@ -367,3 +367,110 @@ Proof.
   destruct (s_ws s) eqn:E; [congruence|]. rewrite <- E in *.
   apply run_loop_refines; assumption.
 Qed.
+
+(* ---------- SpawnWarrior and AddWarrior ---------- *)
+Lemma core_eq_set M c c' a i : core_eq M c c' -> core_eq M (set c a i) (set c' a i).
+Proof. intros H x Hx. rewrite !get_set. destruct (x =? a); [reflexivity|now apply H]. Qed.
+
+Lemma load_refines M off code : forall c c' i,
+  0 < M -> off < M -> i + N.of_nat (length code) + M < two64 ->
+  core_eq M c c' ->
+  core_eq M (load_code M c off i code) (m_load M c' (off + i) code).
+Proof.
+  induction code as [|x t IH]; intros c c' i HM Hoff Hb H; cbn [load_code m_load]; [assumption|].
+  replace (off + i + 1) with (off + (i + 1)) by lia.
+  apply IH; try assumption.
+  - cbn [length] in Hb. lia.
+  - rewrite add64_small by lia. apply core_eq_set. assumption.
+Qed.
+
+Lemma m_load_congr M c off off' code :
+  0 < M -> off mod M = off' mod M -> m_load M c off code = m_load M c off' code.
+Proof.
+  intros HM. revert c off off'. induction code as [|x t IH]; intros c off off' E; cbn [m_load]; [reflexivity|].
+  rewrite E. apply IH.
+  rewrite <- (N.add_mod_idemp_l off 1), <- (N.add_mod_idemp_l off' 1) by lia. now rewrite E.
+Qed.
+
+Lemma nth_error_Z_of_nat {A} (l : list A) (wi : Z) w :
+  (0 <= wi)%Z -> nth_error l (Z.to_nat wi) = Some w -> (wi < Z.of_nat (length l))%Z.
+Proof.
+  intros H0 Hn. assert (Z.to_nat wi < length l)%nat by (apply nth_error_Some; congruence). lia.
+Qed.
+
+Lemma entry_eq M off st :
+  0 < M -> (0 <= st)%Z ->
+  Z.to_N ((Z.of_N off + st) mod Z.of_N M) = (off mod M + Z.to_N st) mod M.
+Proof.
+  intros HM Hs. rewrite <- (Z2N.id st) at 1 by assumption.
+  rewrite <- N2Z.inj_add, <- N2Z.inj_mod, N2Z.id.
+  now rewrite N.add_mod_idemp_l by lia.
+Qed.
+
+Theorem spawn_refines s t wi off :
+  Inv s -> guards s -> Rel s t -> off < two64 ->
+  Forall (fun w => (0 <= w_start w)%Z /\ Z.to_N (w_start w) + N.of_nat (length (w_code w)) + 2 * s_m s < two64) (s_ws s) ->
+  match spawn_warrior s wi off with
+  | Panic => False
+  | Ok (inr _) =>                       (* refused: no such warrior, or it is alive *)
+      (wi < 0)%Z \/ (Z.of_nat (length (s_ws s)) <= wi)%Z \/
+      exists w, nth_error (m_ws t) (Z.to_nat wi) = Some w /\ m_alive w = true
+  | Ok (inl (s', _)) =>
+      (0 <= wi)%Z /\
+      exists t', m_spawn (cfg_of s) t (Z.to_nat wi) off = Some t' /\ Rel s' t' /\ Inv s' /\ cfg_of s' = cfg_of s
+  end.
+Proof.
+  intros HI HG HR Hoff Hws.
+  pose proof (spawn_inv s wi off HI) as SI.
+  pose proof HI as (A & B & C & D & E & F & G).
+  pose proof HG as (G1 & G2 & G3).
+  pose proof HR as (R1 & R2 & R3).
+  unfold spawn_warrior in *.
+  destruct (wi <? 0)%Z eqn:H0; cbn [orb] in *; [apply Z.ltb_lt in H0; auto|].
+  apply Z.ltb_ge in H0.
+  destruct (wcount s <=? wi)%Z eqn:H1; [apply Z.leb_le in H1; unfold wcount in H1; auto|].
+  apply Z.leb_gt in H1. unfold wcount in H1.
+  unfold windex in *. destruct (wi <? 0)%Z eqn:H0'; [apply Z.ltb_lt in H0'; lia|].
+  destruct (nth_error (s_ws s) (Z.to_nat wi)) as [w|] eqn:Hn; [|assumption].
+  assert (Hnt : nth_error (m_ws t) (Z.to_nat wi) = Some (absw w))
+    by (rewrite R2, nth_error_map, Hn; reflexivity).
+  pose proof (proj1 (Forall_forall _ _) Hws w (nth_error_In _ _ Hn)) as [Hst0 Hbd].
+  assert (Mb : 4 * s_m s + 4 < two64) by (apply M_lt_two64; assumption).
+  destruct (w_state w) eqn:Hst.
+  2:{ right. right. exists (absw w). split; [assumption|]. rewrite m_alive_absw. unfold alive. now rewrite Hst. }
+  all: split; [assumption|]; unfold m_spawn; rewrite Hnt, m_alive_absw; unfold alive; rewrite Hst;
+       eexists; split; [reflexivity|]; split; [|split; [exact SI|reflexivity]].
+  all: unfold Rel; cbn [s_m s_mem s_ws s_cycle set_w with_mem with_ws with_living m_core m_ws m_cycles cfg_of mc_M mc_P];
+       split; [|split; [|assumption]].
+  all: try (rewrite (m_load_congr (s_m s) (m_core t) off (off mod s_m s + 0) (mw_code (absw w)));
+            [apply load_refines; cbn [absw mw_code]; try assumption; try (apply N.mod_lt; lia); lia
+            | lia | rewrite N.add_0_r, N.mod_mod; lia]).
+  all: rewrite map_list_set, R2; f_equal; unfold absw, w_queue; cbn [w_code w_start w_state w_pq abs_st mw_start];
+       f_equal;
+       pose proof (rq_new_wf (s_procs s) B) as Hnw;
+       rewrite (rq_push_values _ _ Hnw), rq_new_values; cbn [length rq_new q_size];
+       unfold enq; cbn [fold_left length app];
+       assert (Hlt : (N.of_nat 0 <? s_procs s) = true) by (apply N.ltb_lt; cbn; lia);
+       rewrite Hlt; cbn [app]; f_equal;
+       assert (Hz : z2u64 (w_start w) = Z.to_N (w_start w))
+         by (unfold z2u64; rewrite Z.mod_small; [reflexivity| rewrite two64_val in Hbd; lia]);
+       rewrite Hz;
+       assert (Hom : off mod s_m s < s_m s) by (apply N.mod_lt; lia);
+       rewrite add64_small by lia;
+       apply entry_eq; [lia|assumption].
+Qed.
+
+Lemma add_refines s t code start :
+  Rel s t ->
+  Rel (add_warrior s code start)
+      (mkM (m_core t) (m_ws t ++ [mkMW code start MAdded []]) (m_cycles t)).
+Proof.
+  intros (R1 & R2 & R3). unfold Rel, add_warrior. cbn.
+  split; [assumption|]. split; [|assumption]. rewrite R2, map_app. reflexivity.
+Qed.
+
+Lemma new_rel c s : new_sim c = Some s -> Rel s (mkM empty_core [] 0).
+Proof.
+  unfold new_sim. destruct (validate c); [|discriminate]. intros E. inversion E.
+  unfold Rel. cbn. split; [intros a _; reflexivity|auto].
+Qed.
